@@ -47,7 +47,7 @@ CHECKS["C05"] = dict(
     technique="symbolic execution of blackbird.loads on declaration skeletons (proxies, symbolic declared shapes and indices); z3 decides placement/type/shape acceptance vs the reference",
     text="Declaration skeletons (scalars: type x initialiser; arrays: dtype x row lengths incl. ragged x shape declaration x parameter positions x use) are loaded "
          "by the real code with all element values, the declared shape integers and the index symbolic; z3 decides element placement, element kind, and "
-         "acceptance/rejection for all values at once against the reference interpreter. Bounded (<=3x3).",
+         "acceptance/rejection for all values at once against the reference interpreter. Bounded (<=3x3). Integers at and beyond the 64-bit edge are native cases with their own oracle (kept exactly or refused).",
     note=E2NOTE,
 )
 CHECKS["C06"] = dict(
@@ -55,7 +55,7 @@ CHECKS["C06"] = dict(
     technique="symbolic execution of blackbird.loads on loop skeletons with symbolic range bounds (trip-count forks) and list values; z3 decides impl vs unrolled reference per path x reference case",
     text="Loop skeletons with symbolic range bounds a:b:c (trip count forked up to K on both sides independently), value lists in three bracket styles with "
          "symbolic values, bodies of 1-3 statements, statements before/after and use of the loop variable after the loop; compared with the reference "
-         "unrolling for all values by z3. Bounded by K and the generator.",
+         "unrolling for all values by z3; booleans listed in int / float loops must be refused or bound as the converted number. Bounded by K and the generator.",
     note=E2NOTE,
 )
 
